@@ -25,6 +25,7 @@ DEFAULT = {
     "naux": (0, 2), "p_aux": 0.25, "p_caux": 0.2, "p_done": 0.5, "nslaves": (0, 1), "p_fiat": 0.3, "p_bid": 0.15,
     "p_marker": 0.0, "p_env": 0.8, "ticks": (6, 30), "periods": ["0.125", "0.25", "0.0625"], "p_status_need": 0.1,
     "p_inactive": 0.2, "p_period": 0.2, "go_targets": "any", "p_auxdone": 0.0, "p_done_named": 0.0,
+    "p_staged": 0.0,     # probability of a master framer walking a slave through a drawn sequence of fiats, one per frame
 }
 
 
@@ -158,6 +159,9 @@ def gen_program(g, cfg=None):
     naux = g.randint(*cfg["naux"])
     nsl = g.randint(*cfg["nslaves"])
     nmain = g.randint(*cfg["nmain"])
+    staged = g.random() < cfg.get("p_staged", 0.0)
+    if staged:
+        nsl = max(nsl, 1)
     aux_names = ["ax%d" % i for i in range(naux)]
     slave_names = ["sl%d" % i for i in range(nsl)]
     main_names = ["fm%d" % i for i in range(nmain)]
@@ -177,6 +181,31 @@ def gen_program(g, cfg=None):
     for i, nm in enumerate(slave_names):
         frames = _frames(g, cfg, "s%d" % i, [], P, [], [], is_aux=True)
         framers.append({"name": nm, "sched": "slave", "order": None, "period": None, "pdec": "0", "first": frames[0]["name"], "frames": frames})
+    if staged:
+        # the life cycle idiom of the shipped slave plans: ready / start / run / stop ... in successive frames, the environment
+        # (and the slave's own actions) changing the guarded shares in between
+        seq = []
+        if g.random() < 0.5:
+            seq = ["ready", "start"] + g.choice([[], ["run"], ["run", "stop"], ["stop", "ready", "start"], ["start"]])
+        else:
+            for _ in range(g.randint(2, 7)):
+                seq.append(g.choice(["ready", "ready", "start", "start", "run", "run", "stop", "abort"]))
+        for fr in framers:          # guarded first frames on the slaves, so that whether a ready / start is admitted depends on the history
+            if fr["sched"] == "slave" and g.random() < 0.7:
+                first = [f for f in fr["frames"] if f["name"] == fr["first"]][0]
+                if not any(a["k"] == "let" for a in first["acts"]):
+                    first["acts"].insert(0, {"k": "let", "needs": [_cmp_need(g, neg_ok=False)]})
+        sframes = []
+        for i, control in enumerate(seq):
+            fname = "st%s" % "abcdefghij"[i]
+            acts = [{"k": "rec", "ctx": "enter", "tag": "%s.enter" % fname}, {"k": "rec", "ctx": "exit", "tag": "%s.exit" % fname},
+                    {"k": "fiat", "ctx": g.choice(["enter", "enter", "recur", "exit"]), "control": control, "who": g.choice(slave_names)}]
+            if i + 1 < len(seq):
+                hold = g.choice([0, 0, 1, 2, 3])
+                acts.append({"k": "go", "far": "next", "needs": [] if hold == 0 else [{"t": "recurred", "op": ">=", "goal": hold}]})
+            sframes.append({"name": fname, "over": None, "acts": acts})
+        framers.append({"name": "fmst", "sched": "active", "order": g.choice([None, "front", "back"]), "period": None, "pdec": "0",
+                        "first": sframes[0]["name"], "frames": sframes})
     g.shuffle(framers)
     env = {}
     if g.random() < cfg["p_env"]:
